@@ -2,11 +2,12 @@
 """Runs every seeded change in /verif/seeded against all eight checks (quick) via
 tools/try_seed.sh and records the outcome in seeded/<id>/meta.json (results, caught_by)."""
 import json, glob, os, re, subprocess, sys
+V = os.path.dirname(os.path.dirname(os.path.abspath(__file__)))
 want = sys.argv[1:]
-for d in sorted(glob.glob('/verif/seeded/*/')):
+for d in sorted(glob.glob(V + '/seeded/*/')):
     sid = os.path.basename(d.rstrip('/'))
     if want and sid not in want: continue
-    r = subprocess.run(['/verif/tools/try_seed.sh', d + 'patch.diff', 'quick'], capture_output=True, text=True)
+    r = subprocess.run([V + '/tools/try_seed.sh', d + 'patch.diff', 'quick'], capture_output=True, text=True)
     res = {}
     for l in r.stdout.splitlines():
         m = re.match(r'(C\d\d): (CAUGHT|missed|harness error)(.*)', l)
